@@ -104,8 +104,10 @@ def _check(v):
     elif isinstance(v, (float, np.floating)):
         if not abs(v) < MAG_CAP:
             raise IllDefined("magnitude")
-    elif isinstance(v, int) and not isinstance(v, bool):
-        if abs(v) > 10 ** 60:
+    elif isinstance(v, (int, np.integer)) and not isinstance(v, (bool, np.bool_)):
+        # numpy integers (object-mode constants, len()) wrap around silently at 2**63 while Python
+        # integers do not: integer overflow is outside the well-defined domain
+        if abs(int(v)) > 2 ** 31:
             raise IllDefined("magnitude")
     return v
 
